@@ -85,7 +85,7 @@ Ltac frame f := pres_gen (same f) (same_refl f) (same_trans f); try reflexivity.
 (* the stepping tactic for outcome characterisations *)
 Ltac atom_scrut b := lazymatch b with context [match _ with _ => _ end] => fail | _ => idtac end.
 Ltac crunch1 := match goal with |- context [match ?b with _ => _ end] => atom_scrut b; destruct b eqn:? end.
-Ltac red_m := cbn beta iota delta [fst snd andb orb negb h_st h_lg h_plan h_ev h_dc c_st c_lg start].
+Ltac red_m := cbn beta iota zeta delta [fst snd andb orb negb h_st h_lg h_plan h_ev h_dc c_st c_lg start].
 Ltac unfold_m := unfold guard, require_modelled, lift_opt, role, bind, ret, fail, panic, unmodelled, get_st, mod_st, emit.
 Ltac crunch := unfold_m; red_m; repeat (crunch1; red_m); try reflexivity; try congruence.
 
@@ -102,3 +102,19 @@ Lemma deliver_ok_inv e c plan t a : r_out (deliver e c plan t) = OOk a ->
             r_events (deliver e c plan t) = h_ev h /\ r_calls (deliver e c plan t) = h_dc h.
 Proof. unfold deliver. destruct (handler e t (start c plan)) as [[a'| | |] h]; cbn; intros H; try discriminate.
   injection H as ->. eauto. Qed.
+
+(* the same stepping, inside a hypothesis [H : m h = (ROk a, h')] (inversion of a successful run) *)
+Ltac red_in H := cbn beta iota zeta delta [fst snd andb orb negb h_st h_lg h_plan h_ev h_dc c_st c_lg start] in H.
+Ltac unfold_m_in H :=
+  unfold guard, require_modelled, lift_opt, role, bind, ret, fail, panic, unmodelled, get_st, mod_st, emit in H.
+Ltac step_in H :=
+  match type of H with
+  | context [match ?b with _ => _ end] => atom_scrut b; destruct b eqn:?; red_in H; try discriminate H
+  end.
+Ltac inv_ok H := unfold_m_in H; red_in H; repeat step_in H.
+
+Ltac kill_beqb :=
+  match goal with
+  | B : beqb ?a ?b = true |- _ => apply beqb_eq in B; subst; congruence
+  end.
+Ltac step := crunch1; red_m; try reflexivity; try congruence; try kill_beqb.
